@@ -231,17 +231,22 @@ def run_case(arg):
             bounds = {"a": [-1.0, 3.0], "b": [0.5, 4.0]}
             rng = np.random.default_rng(5)
             data = np.stack([rng.uniform(-0.9, 2.9, 16), rng.uniform(0.6, 3.9, 16)], axis=1).astype(fdt)
+            # eps: the clipping margin the object was built with is part of the map (points closer to a bound
+            # than the margin are where it shows): rows 0-3 sit at 1e-4 of the width from the bounds
+            ekw = {} if c.get("eps", "default") == "default" else {"eps": 1e-2}
+            data[0, 0] = fdt(-1.0 + 4.0 * 1e-4); data[1, 0] = fdt(3.0 - 4.0 * 1e-4)
+            data[2, 1] = fdt(0.5 + 3.5 * 1e-4); data[3, 1] = fdt(4.0 - 3.5 * 1e-4)
             mk = {
-                "Composite": lambda: T.CompositeTransform(parameters=params, prior_bounds=bounds, bounded_to_unbounded=False, affine_transform=False, xp=xp, dtype=dt),
-                "CompositeFull": lambda: T.CompositeTransform(parameters=params, prior_bounds=bounds, periodic_parameters=["a"], bounded_to_unbounded=True, bounded_transform="probit", affine_transform=True, xp=xp, dtype=dt),
-                "FlowTransform": lambda: T.FlowTransform(parameters=params, prior_bounds=bounds, bounded_to_unbounded=True, bounded_transform="logit", affine_transform=True, xp=xp, dtype=dt),
+                "Composite": lambda: T.CompositeTransform(parameters=params, prior_bounds=bounds, bounded_to_unbounded=False, affine_transform=False, **ekw, xp=xp, dtype=dt),
+                "CompositeFull": lambda: T.CompositeTransform(parameters=params, prior_bounds=bounds, periodic_parameters=["a"], bounded_to_unbounded=True, bounded_transform="probit", affine_transform=True, **ekw, xp=xp, dtype=dt),
+                "FlowTransform": lambda: T.FlowTransform(parameters=params, prior_bounds=bounds, bounded_to_unbounded=True, bounded_transform="logit", affine_transform=True, **ekw, xp=xp, dtype=dt),
                 "Affine": lambda: T.AffineTransform(xp=xp, dtype=dt),
-                "Logit": lambda: T.LogitTransform(lower=[-1.0, 0.5], upper=[3.0, 4.0], xp=xp, dtype=dt),
-                "Probit": lambda: T.ProbitTransform(lower=[-1.0, 0.5], upper=[3.0, 4.0], xp=xp, dtype=dt),
+                "Logit": lambda: T.LogitTransform(lower=[-1.0, 0.5], upper=[3.0, 4.0], **ekw, xp=xp, dtype=dt),
+                "Probit": lambda: T.ProbitTransform(lower=[-1.0, 0.5], upper=[3.0, 4.0], **ekw, xp=xp, dtype=dt),
                 "Periodic": lambda: T.PeriodicTransform(lower=[-1.0, 0.5], upper=[3.0, 4.0], xp=xp, dtype=dt),
                 "Identity": lambda: T.IdentityTransform(xp=xp, dtype=dt),
             }[c["cls"]]
-            tag = f"transform|{c['cls']}|{'fitted' if c['fitted'] else 'unfitted'}|{c['ns']}/{dt}"
+            tag = f"transform|{c['cls']}|{'fitted' if c['fitted'] else 'unfitted'}|{c['ns']}/{dt}|eps={c.get('eps', 'default')}"
             try:
                 tr = mk()
                 needs_fit = c["cls"] in ("CompositeFull", "FlowTransform", "Affine")
@@ -446,7 +451,13 @@ def main(prop, tier, seed, replay_path=None):
             heavy_keep = fl_strat + [i for i in heavy if cases[i]["kind"] == "flow" and i not in fl_strat][:4] + \
                          [i for i in heavy if cases[i]["kind"] == "resume" and cases[i]["backend"] == "verifflow"][:24] + \
                          [i for i in heavy if cases[i]["kind"] == "resume" and cases[i]["backend"] != "verifflow"][:8]
-            idx = light[:1100] + heavy_keep
+            # transforms: every (class, eps, saves) combination in its fitted state at least once
+            tr_seen, tr_strat = set(), []
+            for i in light:
+                cc = cases[i]
+                if cc["kind"] == "transform" and cc["fitted"] and (cc["cls"], cc["eps"], cc["saves"]) not in tr_seen:
+                    tr_seen.add((cc["cls"], cc["eps"], cc["saves"])); tr_strat.append(i)
+            idx = tr_strat + [i for i in light if i not in set(tr_strat)][:1100] + heavy_keep
         todo = [(i, cases[i]) for i in idx]
     ctx = mp.get_context("fork")
     with ctx.Pool(min(16, os.cpu_count() or 4)) as pool:
